@@ -3,7 +3,8 @@
    shapes of results are functions of kinds and shapes of operands.  Equality of element values
    under torch is a differential test (harness/c08.py), not a theorem: torch kernels are not modelled. *)
 From Coq Require Import ZArith List String Bool.
-From C08 Require Import Model Generated Proofs.
+From Coq Require Import QArith.
+From C08 Require Import Model Generated Proofs Single.
 Import ListNotations.
 Open Scope string_scope.
 Open Scope list_scope.
@@ -64,22 +65,41 @@ Theorem C08_kind_is_a_function_of_kinds : forall x y,
 Proof. exact kind_arith. Qed.
 Print Assumptions C08_kind_is_a_function_of_kinds.
 
-(* T8.kind (shape level) — partial: scalars and rank-1 operands only; rank 2 is covered by the
-   differential test, not by this theorem *)
-Theorem C08_shape_is_a_function_of_shapes_partial : forall f g a b,
-  (match a with VS _ _ | V1 _ => True | _ => False end) ->
-  (match b with VS _ _ | V1 _ => True | _ => False end) ->
-  match np_lift2 f a b, np_lift2 g a b with
-  | Ok v, Ok w => shape v = shape w /\
-                  (shape v = match shape a, shape b with
-                             | Some [], s | s, Some [] => s
-                             | Some [n], Some [m] => if Nat.eqb n m then Some [n] else if Nat.eqb n 1 then Some [m] else Some [n]
-                             | _, _ => None end)
-  | Err, Err => True
-  | _, _ => False
-  end.
-Proof. exact lift2_shape_rank1. Qed.
-Print Assumptions C08_shape_is_a_function_of_shapes_partial.
+(* T8.kind (shape level), scalars, vectors and matrices: whether an element-wise operation succeeds (Ok), is
+   refused by NumPy (Err) or is one of the rank-2 broadcasts outside this model (Unm: a (r,1) or (1,c) matrix
+   against another shape), and the shape of the result, depend on the operand SHAPES only — not on the element
+   values, nor on which operation it is; where it succeeds the shape is `bshape` of the operand shapes
+   (scalar op anything, equal-length / length-1 vectors, matrix op row vector, matrices of equal shape). *)
+Theorem C08_shape_is_a_function_of_shapes : forall f g a b, wf2 a -> wf2 b ->
+  rclass (np_lift2 f a b) = rclass (np_lift2 g a b) /\ rshape (np_lift2 f a b) = rshape (np_lift2 g a b) /\
+  (forall v, np_lift2 f a b = Ok v -> shape v = bshape (shape a) (shape b)).
+Proof. exact lift2_shape. Qed.
+Print Assumptions C08_shape_is_a_function_of_shapes.
+
+Example C08_shape_example :
+  let m := V2 [[NI 1; NI 2; NI 3]; [NI 4; NI 5; NI 6]] in
+  wf2 m /\ wf2 (V1 [NI 1; NI 2; NI 3]) /\
+  rshape (np_lift2 n_add m (V1 [NI 1; NI 2; NI 3])) = Some [2; 3]%nat /\ rshape (np_lift2 n_mul m m) = Some [2; 3]%nat.
+Proof. cbv zeta. repeat split; reflexivity. Qed.
+
+(* T8.single — forward error of evaluating the + * core (a reduction +/ or */ is a fold of Add / Mul) on
+   non-negative data with one rounding per stored operand and per operation, for ANY rounding operator of
+   relative error u (binary32 round-to-nearest: u = 2^-24, barring overflow/underflow): the rounded value lies
+   within [(1-u)^k, (1+u)^k] of the exact one, k = rk e.  The torch-vs-numpy comparison of harness/c08.py uses
+   this interval (u32 = 2^-24 for torch, u64 = 2^-53 for numpy) as its tolerance on the programs of this domain. *)
+Theorem C08_single_precision_bound : forall (u : Q), (0 <= u)%Q -> (u <= 1)%Q -> forall (rnd : Q -> Q),
+  (forall x, (0 <= x)%Q -> (x * (1 - u) <= rnd x)%Q /\ (rnd x <= x * (1 + u))%Q) ->
+  forall e, nonneg e ->
+  (0 <= ev e)%Q /\ (ev e * pw (1 - u) (rk e) <= evr rnd e)%Q /\ (evr rnd e <= ev e * pw (1 + u) (rk e))%Q.
+Proof. exact single_bound. Qed.
+Print Assumptions C08_single_precision_bound.
+
+(* hypotheses are satisfiable (exact arithmetic is a rounding with u = 0), on a non-trivial expression *)
+Example C08_single_example :
+  let e := Add (Mul (Leaf (1 # 10)) (Leaf 3)) (Add (Leaf (7 # 10)) (Leaf (13 # 10))) in
+  nonneg e /\ rk e = 4%nat /\
+  (forall x : Q, (0 <= x)%Q -> (x * (1 - 0) <= x)%Q /\ (x <= x * (1 + 0))%Q).
+Proof. cbv zeta. split; [cbn; repeat split; discriminate |]. split; [reflexivity |]. intros x H. split; ring_simplify; apply Qle_refl. Qed.
 
 (* Non-vacuity: a nested compilable expression is accepted by both tables, with different texts *)
 Example C08_accept_example :
